@@ -247,11 +247,12 @@ Definition propagate_early_fails (_ : bool) (n : node) : R action :=
   end.
 
 (* ---- optimize ---- *)
-Definition optimize (utf16_feature : bool) (n : node) : R node :=
-  do n0 <- run_to_fixpoint simplify_brackets PASS_FUEL n;
-  do n1 <- run_to_fixpoint decat PASS_FUEL n0;
-  do n2 <- run_to_fixpoint unroll_loops PASS_FUEL n1;
-  do n3 <- run_to_fixpoint promote_1char_loops PASS_FUEL n2;
-  do n4 <- (if utf16_feature then Ok n3 else run_to_fixpoint form_literal_bytes PASS_FUEL n3);
-  do n5 <- run_to_fixpoint remove_empties PASS_FUEL n4;
-  run_to_fixpoint propagate_early_fails PASS_FUEL n5.
+Definition optimize_with (fuel : nat) (utf16_feature : bool) (n : node) : R node :=
+  do n0 <- run_to_fixpoint simplify_brackets fuel n;
+  do n1 <- run_to_fixpoint decat fuel n0;
+  do n2 <- run_to_fixpoint unroll_loops fuel n1;
+  do n3 <- run_to_fixpoint promote_1char_loops fuel n2;
+  do n4 <- (if utf16_feature then Ok n3 else run_to_fixpoint form_literal_bytes fuel n3);
+  do n5 <- run_to_fixpoint remove_empties fuel n4;
+  run_to_fixpoint propagate_early_fails fuel n5.
+Definition optimize (utf16_feature : bool) (n : node) : R node := optimize_with PASS_FUEL utf16_feature n.
